@@ -260,6 +260,9 @@ def search(res):
         end_to_end(res, 60)
 
 
+REPLAY_IS_EXACT = True
+
+
 def replay(res, rp):
     r = rp["replay"]
     if r.get("kind") in ("grid", "stub"):
